@@ -78,6 +78,61 @@ def render_of_events(spec, events):
     return out
 
 
+FAILING_CALL_SRC = L.HDR + '''
+@tweezer
+def carry(g: grid.Grid[Any, Any], width: int, dy: float):
+    assert dy > -1.0
+    action.set_loc(g)
+    action.turn_on(action.ALL, action.ALL)
+    action.move(grid.shift(g, 0.0, dy))
+    action.move(grid.shift(g[0:width, :], 1.0, dy))
+    action.turn_off(action.ALL, action.ALL)
+
+@move
+def main(n: int, m: int, b: bool):
+    z = spec.get_static_trap(zone_id="A")
+    d = schedule.device_fn(carry, [0, 1], [0, 1, 2])
+    gate.global_rz(0.5)
+    d(z, 3, 1.0)
+    gate.local_rz(0.25, z)
+    d(z, n, 1.0 * m)
+    gate.global_r(0.5, 0.25)
+    r = schedule.reverse(d)
+    r(z, 3, 0.5)
+    return n
+'''
+
+
+def failing_call_stream(ctx, spec, PathVisualizer, recorder):
+    """a device call whose move function raises for some arguments (a failing assert, a shape change): the replay stops there
+    with an error, exactly like every other executor - nothing after the failing call is rendered"""
+    mod = T.load_source(FAILING_CALL_SRC, "c16f")
+    # a second, independent executor: the same source with the spec given at compile time, run by the plain interpreter
+    from . import c06 as C06
+    C06.SPEC_SLOT = spec
+    mod_spec = T.load_source(FAILING_CALL_SRC.replace("@move\ndef main(", "@move(arch_spec=_C06.SPEC_SLOT)\ndef main(").replace(
+        "from bloqade.shuttle.prelude import tweezer, move\n",
+        "from bloqade.shuttle.prelude import tweezer, move\nfrom harness.props import c06 as _C06\n"), "c16fs")
+    for a in ((3, 1, True), (2, 1, True), (3, -2, True), (3, 0, False)):
+        rec = recorder()
+        try:
+            PathVisualizer(mod.main.dialects, arch_spec=spec, renderer=rec).run(mod.main, args=a, kwargs={})
+            got = "ok (" + " ".join(rec.calls) + ")"
+        except Exception:  # noqa: BLE001
+            got = "err after (" + " ".join(rec.calls) + ")"
+        other = EV.run_with_events(mod.main, spec, a)
+        evs = render_of_events(spec, other.events)
+        want = ("err after (" if other.error is not None else "ok (") + " ".join(evs) + ")"
+        ctx.count("failing_call_runs")
+        ctx.count("failing_call_runs_" + ("err" if other.error is not None else "ok"))
+        o2 = EV.run_with_events(mod_spec.main, spec, a, plain=True)
+        want2 = ("err after (" if o2.error is not None else "ok (") + " ".join(render_of_events(spec, o2.events)) + ")"
+        if got != want or got != want2:
+            ctx.fail({"source": FAILING_CALL_SRC[len(L.HDR):], "args": list(a)},
+                     f"a program with a device call that fails at run time: the visualizer gives {got[:300]}, the event-logging "
+                     f"interpreter gives {want[:300]}, the plain interpreter on the kernel compiled with the spec gives {want2[:300]}")
+
+
 def run(ctx):
     from bloqade.shuttle.visualizer import PathVisualizer
     spec = L.default_move_spec()
@@ -143,6 +198,7 @@ def run(ctx):
             ctx.count("runs_with_group", int(other.error is None and any(e[0] == "play_group" for e in other.events)))
     if ctx.counts.get("compile_fail", 0) > 0.3 * n_prog:
         raise HarnessFault("generator degenerate: >30% of generated programs do not compile")
+    failing_call_stream(ctx, spec, PathVisualizer, recorder)
     model = ctx.driver(lines)
     ctx.traces_validated = len(rows)
     for (case, got, want, want2), m in zip(rows, model):
